@@ -13,6 +13,7 @@ import (
 	"fmt"
 	"go/token"
 	"go/types"
+	"strings"
 
 	"golang.org/x/tools/go/ssa"
 )
@@ -109,5 +110,90 @@ func ruleNumParse(p *Prog, r *Report) {
 		default:
 			r.OK("NUMPARSE", key, at, fmt.Sprintf("%d stores: conversions of ParseFloat results or constants", n))
 		}
+	}
+}
+
+// ruleFloatWidth: strconv.ParseFloat(s, 32) returns a float64 that holds the NEAREST float32 — fine when the result
+// is converted to float32 straight away, a silent loss of nine digits when it is kept as float64 (a coordinate such
+// as 51.123456789 comes back as 51.12345504760742). Every ParseFloat call in the packages given must pass bitSize 64
+// unless every use of its result is a conversion to a float32-based type.
+func ruleFloatWidth(p *Prog, r *Report, rule string, rels ...string) {
+	want := map[string]bool{}
+	for _, rel := range rels {
+		want[rel] = true
+	}
+	n := 0
+	for _, f := range p.AllLibFns() {
+		g := f
+		for g.Parent() != nil {
+			g = g.Parent()
+		}
+		if g.Pkg == nil || !want[relPkg(g.Pkg.Pkg.Path())] {
+			continue
+		}
+		eachCall(f, func(site ssa.CallInstruction) {
+			c := site.Common()
+			if !isCallTo(c, "strconv.ParseFloat") || len(c.Args) != 2 {
+				return
+			}
+			n++
+			key := fmt.Sprintf("%s | ParseFloat width", fnName(f))
+			at := p.posStr(instrPos(site))
+			bits, ok := constInt(c.Args[1])
+			if !ok {
+				r.Undecided(rule, key, at, "bitSize is not a constant")
+				return
+			}
+			if bits == 64 {
+				r.OK(rule, key, at, "bitSize 64")
+				return
+			}
+			call, _ := site.(*ssa.Call)
+			val := tupleExtract(call, 0)
+			narrowedOnly := val != nil
+			if val != nil {
+				seen := map[ssa.Value]bool{}
+				var chk func(v ssa.Value, d int)
+				chk = func(v ssa.Value, d int) {
+					if seen[v] || d > 4 {
+						return
+					}
+					seen[v] = true
+					for _, rf := range refs(v) {
+						switch x := rf.(type) {
+						case *ssa.Convert:
+							if bt, ok := x.Type().Underlying().(*types.Basic); !ok || bt.Kind() != types.Float32 {
+								narrowedOnly = false
+							}
+						case *ssa.Phi:
+							chk(x, d+1)
+						case *ssa.Store:
+							// spilled into a local float64 and re-loaded: follow the loads
+							if al, ok := x.Addr.(*ssa.Alloc); ok {
+								for _, r2 := range refs(al) {
+									if u, ok := r2.(*ssa.UnOp); ok {
+										chk(u, d+1)
+									}
+								}
+							} else {
+								narrowedOnly = false
+							}
+						case *ssa.DebugRef:
+						default:
+							narrowedOnly = false
+						}
+					}
+				}
+				chk(val, 0)
+			}
+			if narrowedOnly {
+				r.OK(rule, key, at, fmt.Sprintf("bitSize %d, and the result is only ever converted to a float32 type", bits))
+			} else {
+				r.Bad(rule, key, at, fmt.Sprintf("ParseFloat(…, %d) whose result is used as a float64: the value is rounded to float32 precision first, so a number with more than about seven significant digits is not reported as written", bits))
+			}
+		})
+	}
+	if n == 0 {
+		r.OK(rule, "no strconv.ParseFloat in "+strings.Join(rels, ", "), "-", "nothing to decide")
 	}
 }
